@@ -1,6 +1,6 @@
 CONSTANTS
   Collisions = {"none", "not3", "xy3", "ab4"}
-  Spellings = {"merged", "split", "split_rev", "apart"}
+  Spellings = {"after_list", "between_lists", "merged", "split", "split_rev", "apart"}
   Idents = {"UserId", "A", "Foo", "FooBar", "Foo2Bar", "HTTPServer", "IOError", "ID", "URL", "HTTP2", "Init", "Default", "None", "Class", "In", "Self_"}
   Renames = {"empty", "none", "x", "foo-bar", "Other_Name", "init", "$ref", "$a_quote_b", "default"}
   Kinds = {"unit", "newtype", "struct"}
